@@ -3,7 +3,7 @@ import Firefly.Gen.Pmm
 Model of `kernel/mm/pmm` (boot-time allocator, bitmap allocator, `Init`).
 
 Frames, addresses and lengths are `Nat`; the theorems carry the domain hypotheses under which
-the Go `uintptr`/`uint32` arithmetic does not wrap (`addr+len < 2^64`, fewer than `2^32` frames).
+the Go `uintptr`/`uint32` arithmetic does not wrap (`addr+len < 2^64`, fewer than `4294967296` frames).
 The 32-bit counters (`freeCount`, `totalPages`, `reservedPages`) wrap in the model exactly as in
 Go, bitmap words are `BitVec 64` with the code's MSB-first bit order, and every slice index is
 checked: an out-of-range index is an explicit `panic`.
@@ -37,7 +37,8 @@ def bootInit (ks ke : Nat) : Boot :=
 
 /-- the cursor update of `AllocFrame` inside a candidate region `[s, e]` -/
 def bootNext (b : Boot) (s e : Nat) : Nat :=
-  if (b.last ≤ s ∧ b.kStart = s) ∨ (b.last ≤ e ∧ b.last + 1 = b.kStart) then b.kEnd + 1
+  if (b.last ≤ s ∧ b.kStart = s) ∨ (b.last ≤ e ∧ b.last + 1 = b.kStart) then
+    (if b.kEnd + 1 < s then s else b.kEnd + 1)
   else if b.last < s ∨ b.allocCount = 0 then s
   else b.last + 1
 
@@ -84,9 +85,12 @@ structure Bitmap where
   reserved : Nat
 deriving Repr, DecidableEq
 
-def u32 (n : Nat) : Nat := n % 2^32
-def dec32 (n : Nat) : Nat := (n + (2^32 - 1)) % 2^32
-def inc32 (n : Nat) : Nat := (n + 1) % 2^32
+def u32 (n : Nat) : Nat := n % 4294967296
+/-- `n - 1` in `uint32` (for `n < 2^32`); written without large-literal addition so that
+definitional unfolding stays cheap -/
+def dec32 (n : Nat) : Nat := if n = 0 then 4294967295 else n - 1
+/-- `n + 1` in `uint32` (for `n < 2^32`) -/
+def inc32 (n : Nat) : Nat := if n = 4294967295 then 0 else n + 1
 
 /-- frames of an available region that contains at least one whole frame: `(first, last)` -/
 def regionFrames (r : Region) : Option (Nat × Nat) :=
@@ -123,6 +127,15 @@ def poolForFrame (ps : List Pool) (f : Nat) : Option Nat :=
 
 def bitMask (rel : Nat) : Word := (1 : Word) <<< (63 - rel % 64)
 
+/-- set the bit `off` (scan order) of word `blk`: `freeBitmap[blk] |= mask; freeCount--` -/
+def Pool.take (p : Pool) (blk off : Nat) : Pool :=
+  { p with freeCount := dec32 p.freeCount, words := p.words.set blk (p.words.getD blk 0 ||| bitMask off) }
+
+/-- clear the bit of relative frame `rel`: `freeBitmap[block] &^= mask; freeCount++` -/
+def Pool.give (p : Pool) (rel : Nat) : Pool :=
+  { p with freeCount := inc32 p.freeCount,
+           words := p.words.set (rel / 64) (p.words.getD (rel / 64) 0 &&& ~~~(bitMask rel)) }
+
 inductive Mark where | free | reserved
 deriving DecidableEq
 
@@ -139,12 +152,10 @@ def markFrame (bm : Bitmap) (pi : Option Nat) (f : Nat) (flag : Mark) : Option B
       let rel := f - p.start
       match p.words[rel / 64]? with
       | none => none
-      | some w =>
-        let (w', fc, rs) := match flag with
-          | .free => (w &&& ~~~(bitMask rel), inc32 p.freeCount, dec32 bm.reserved)
-          | .reserved => (w ||| bitMask rel, dec32 p.freeCount, inc32 bm.reserved)
-        some { bm with pools := bm.pools.set i { p with words := p.words.set (rel / 64) w', freeCount := fc },
-                       reserved := rs }
+      | some _ =>
+        match flag with
+        | .free => some { bm with pools := bm.pools.set i (p.give rel), reserved := dec32 bm.reserved }
+        | .reserved => some { bm with pools := bm.pools.set i (p.take (rel / 64) rel), reserved := inc32 bm.reserved }
 
 /-- `reserveKernelFrames`: frames `kStart … kEnd`, all against the pool of `kStart` -/
 def reserveKernel (bm : Bitmap) (b : Boot) : Option Bitmap :=
@@ -220,9 +231,8 @@ def alloc (bm : Bitmap) : Bitmap × Option Nat :=
     match bm.pools[i]? with
     | none => (bm, none)
     | some p =>
-      let w := p.words.getD blk 0
-      let p' := { p with freeCount := dec32 p.freeCount, words := p.words.set blk (w ||| bitMask off) }
-      ({ bm with pools := bm.pools.set i p', reserved := inc32 bm.reserved }, some (p.start + (blk * 64 + off)))
+      ({ bm with pools := bm.pools.set i (p.take blk off), reserved := inc32 bm.reserved },
+        some (p.start + (blk * 64 + off)))
 
 inductive FreeRes where | ok | notManaged | doubleFree | panic
 deriving Repr, DecidableEq
@@ -240,7 +250,6 @@ def free (bm : Bitmap) (f : Nat) : Bitmap × FreeRes :=
       | none => (bm, .panic)
       | some w =>
         if w &&& bitMask rel = 0 then (bm, .doubleFree) else
-        let p' := { p with freeCount := inc32 p.freeCount, words := p.words.set (rel / 64) (w &&& ~~~(bitMask rel)) }
-        ({ bm with pools := bm.pools.set i p', reserved := dec32 bm.reserved }, .ok)
+        ({ bm with pools := bm.pools.set i (p.give rel), reserved := dec32 bm.reserved }, .ok)
 
 end Firefly.Pmm
